@@ -577,6 +577,7 @@ def Cache.store (c : Cache) (k : CacheKey) (v : List Rec) : Cache :=
 inductive Reply where
   | answers (recs : List Rec) (rcodeOk : Bool)
   | rejected                 -- empty answer, rcode success
+  | refused                  -- FORMERR, no answer: a query with more than one question (fix C07.fix1)
   | error (e : Err)
 deriving DecidableEq, Repr, Inhabited
 
@@ -615,6 +616,14 @@ def handle (cfg : Cfg) (cache : Cache) (dst : Nat) (isResp : Bool) (q? : Option 
         | (t, .ok r) =>
           ⟨t, .answers r.recs r.rcodeOk, if r.cacheable then cache.store key r.recs else cache⟩
 
+/-- `HandleWithResponseWriter_` from its first line: a query (no response bit) with MORE THAN ONE
+question is refused with FORMERR before anything is routed, forwarded or cached (RFC 9619; routing, cache
+key, singleflight key and question check all look at `Question[0]` only).  `nq` = QDCOUNT, `q?` = the
+first question. -/
+def handleMsg (cfg : Cfg) (cache : Cache) (dst : Nat) (isResp : Bool) (nq : Nat) (q? : Option Question)
+    (ans : Upstreams) : Outcome :=
+  if !isResp && nq > 1 then ⟨[], .refused, cache⟩ else handle cfg cache dst isResp q? ans
+
 /-! ### optimistic cache: a stale entry is served and refreshed in the background -/
 
 structure OutcomeO where
@@ -652,5 +661,9 @@ def handleOpt (cfg : Cfg) (cache : Cache) (stale : List CacheKey) (dst : Nat) (i
         | (t, .error e) => ⟨t, .error e, cache, stale⟩
         | (t, .ok r) =>
           ⟨t, .answers r.recs r.rcodeOk, if r.cacheable then cache.store key r.recs else cache, stale⟩
+
+def handleMsgOpt (cfg : Cfg) (cache : Cache) (stale : List CacheKey) (dst : Nat) (isResp : Bool) (nq : Nat)
+    (q? : Option Question) (ans : Upstreams) : OutcomeO :=
+  if !isResp && nq > 1 then ⟨[], .refused, cache, stale⟩ else handleOpt cfg cache stale dst isResp q? ans
 
 end DaeVerif.C07
